@@ -35,7 +35,7 @@ REQUIRED_THEOREMS = [
     # headline theorems restated about the translated definitions
     "translate_bridge", "scale_bridge", "rotate_bridge", "scaleXyz_bridge", "scaleXyz_default_bridge", "flatten_bridge",
     "normalize_bridge", "fitIntoUnitCube_bridge", "translateToOrigin_bridge", "mergeBody_bridge", "mergeRun_bridge",
-    "src_translate_round_trip", "src_scale_round_trip", "src_rotate_round_trip", "src_normalize_bbox", "src_transforms_alias_free",
+    "copy_bridge", "src_copy_switches", "src_translate_round_trip", "src_scale_round_trip", "src_rotate_round_trip", "src_normalize_bbox", "src_transforms_alias_free",
 ]
 TRUSTED = [
     "Lean 4.33.0 kernel; axioms ⊆ {propext, Classical.choice, Quot.sound}",
@@ -45,7 +45,8 @@ TRUSTED = [
     "scale_xyz, flatten, normalize, fit_into_unit_cube, translate_to_origin and the loop of merge are compiled statement by "
     "statement into Generated/C06Src.lean over the vocabulary Model/MeshSource.lean (rebinding `mesh.vertices[i] = e` vs in-place "
     "`mesh.vertices[i][c] = x`, loops as folds over id_vertices) and proved equal to the model's operations (Props/C06Source.lean); "
-    "copy is still hand-modelled",
+    "[round 5] copy is compiled into statement tables (one row per `copy_mesh.<path> = f(mesh.<path>)`, per branch) whose meaning in the "
+    "model is `copyByTables` (Model/MeshSource.lean), bridged to copyX; flatten follows the repaired (rebinding) code",
     "floating point: coordinates compared to the exact rational answer with |impl - exact| <= 1e-9*scale + 1e-12 (2e-6*scale when binary32 vertex arrays or parameters are involved); "
     "scipy Rotation.from_matrix on rational orthogonal matrices is trusted to apply that matrix",
     "numpy view/copy rules observed from outside (np.shares_memory, values of every mesh after every op)",
@@ -56,7 +57,8 @@ ASSUMPTIONS = [
     "producers (procedural generators, loaders, boundary extraction) are monitored for alias-freedom, not modelled",
     "normalize is only exercised on meshes whose bounding box is not a point",
 ]
-RULE = ("[round 4: `fit_into_unit_cube` driven as well as `normalize(.., False)`; a transform that produces non-finite coordinates is "
+RULE = ("[round 5: derived meshes (boundary extraction, procedural.triangle) are also flattened first thing after creation and their "
+        "source must not move] [round 4: `fit_into_unit_cube` driven as well as `normalize(.., False)`; a transform that produces non-finite coordinates is "
         "reported as wrong coordinates] [round 3: parameters offered as int / float Vec, tuples, lists, numpy int32/int64/float32 arrays and numpy scalars, a "
         "vertex OBJECT of the mesh itself as translation vector / origin, rotations as matrix / scipy Rotation / Euler quarter "
         "turns (list, tuple); vertex arrays float32 / int32 / Fortran-ordered / strided / read-only / tuples / ndarray rows; the same "
@@ -725,15 +727,18 @@ def _oracle_derived(name, t):
     out = []
     R = np.array([[0., -1., 0.], [1., 0., 0.], [0., 0., 1.]])
     for opname, apply in (("scale", lambda m: M.transform.scale(m, 2.)), ("rotate", lambda m: M.transform.rotate(m, R)),
-                          ("translate", lambda m: M.transform.translate(m, V(*t)))):
+                          ("translate", lambda m: M.transform.translate(m, V(*t))),
+                          ("flatten", lambda m: M.transform.flatten(m, 2))):          # round 5: the one transform that was written in place
         try:
             if name == "triangle":
-                src = [V(0.5, 0.25, 1.), V(1., 0., 2.), V(0., 1., 3.)]
+                src = [V(0.5, 0.25, 1.), V(1., 0.5, 2.), V(0.25, 1., 3.)]
                 m = P.triangle(*src)
                 snap = lambda: [[float(x) for x in v] for v in src]
             else:
                 base = P.unit_grid(3, 4, triangulate=True) if name == "boundary_of_surface" else \
-                    P.tetrahedron(V(0.5, 0., 0.), V(1., 0., 0.), V(0., 1., 0.), V(0., 0., 1.), volume=True)
+                    P.tetrahedron(V(0.5, 0., 0.25), V(1., 0., 0.5), V(0., 1., 0.75), V(0., 0., 1.), volume=True)
+                if name == "boundary_of_surface":
+                    for i in base.id_vertices: base.vertices[i] = base.vertices[i] + V(0.25, 0.5, 1.)      # no coordinate is 0
                 m = (M.processing.extract_boundary_of_surface if name == "boundary_of_surface" else M.processing.extract_boundary_of_volume)(base)
                 if isinstance(m, tuple): m = next(x for x in m if hasattr(x, "vertices"))
                 snap = lambda: [[float(x) for x in v] for v in base.vertices]
@@ -1258,12 +1263,24 @@ def translate():
                 + "\n".join(chunks[k] for k in ("translate", "scale", "rotate", "scalexyz", "normalize", "merge"))
                 + "\nend Mouette.Generated.C06\n")
         T.write_generated("C06", body)
+    else:
+        T.write_generated("C06", _stub("C06", "import Mouette.Model.MeshHeap\n", sites))
     # ---- round 4: whole function bodies, read imperatively (vlib/gen/c06_translate.py -> Generated/C06Src.lean)
     from ..gen import c06_translate as SRC
     src_sites, src_body, _ = SRC.translate_sites()
     if src_body is not None:
         T.write_generated("C06Src", src_body)
+    else:
+        T.write_generated("C06Src", _stub("C06Src", "import Mouette.Model.MeshSource\n", src_sites))
     return sites + src_sites
+
+
+def _stub(ns, imports, sites):
+    """round 5: what is written INSTEAD of a generated file when a site of the CURRENT tree is not recognised — an empty namespace, so
+    that the bridges fail to build against this tree (and the build log never talks about the file generated from an earlier tree)"""
+    bad = [f"   {x['site']}: {x['detail'][:160]}" for x in sites if not x["ok"]]
+    return (imports + f"/- STUB: the translation of the current source tree failed, nothing is defined here.\n" + "\n".join(bad).replace("-/", "- /").replace("/-", "/ -")
+            + f"\n-/\nnamespace Mouette.Generated.{ns}\nend Mouette.Generated.{ns}\n")
 
 
 # ------------------------------------------------------------------------------------------------
@@ -1278,7 +1295,7 @@ SOURCE_MAP = {
     _M + "_instanciate_raw_mesh_data": "oracle-only",       # every producer goes through it; outputs inspected for shared vectors
     _M + "load": "oracle-only", _M + "save": "out-of-scope: file output (C04)",      # loaders are among the 37 monitored producers
     _M + "from_arrays": "oracle-only",                      # caller-array aliasing clause of the oracle, 8 array representations
-    _M + "copy": "modelled",                                # Model.MeshHeap.copyMesh / MeshCopy (attributes, connectivity switches)
+    _M + "copy": "translated",                              # statement tables copyAttrBranch / copyDataBranch / copyConnBranch; copy_bridge
     _M + "merge": "translated",                             # mergeBody / mergeRun; mergeBody_bridge, mergeRun_bridge, gen_merge_eq
     _M + "reorder_vertices": "out-of-scope: builds a new mesh through from_arrays-like paths; not in the statement",
     _T + "translate": "translated",                         # translate_bridge, src_translate_round_trip
